@@ -97,6 +97,9 @@ func genC13(r *Rng, e *Emitter, n int) {
 		}
 		shape := r.Intn(5)
 		flat := make([]float64, 0, np*stride)
+		fractional := g <= 200 && r.chance(1, 4)
+		fscale := []float64{0.1, 0.7, 1.0 / 3, 0.01, 1.1}[r.Intn(5)]
+		foff := []float64{0, 0.1, 0.3, 17.3}[r.Intn(4)]
 		// thin cloud: lattice points hugging a long segment (any of eight orientations), so that the two
 		// ends are the only extremes in all eight octagon directions while the points are not collinear
 		tw, th := 1+r.Intn(g), 1+r.Intn(g)
@@ -144,10 +147,19 @@ func genC13(r *Rng, e *Emitter, n int) {
 					x, y = g/2+int(float64(g/2)*cosTab[k%16]), g/2+int(float64(g/2)*sinTab[k%16])
 				}
 			}
-			flat = append(flat, float64(x), float64(y))
+			fx, fy := float64(x), float64(y)
+			if fractional {
+				// tenths, thirds ...: ordinates that are not whole numbers, so that differences between
+				// points round and "collinear" holds only up to an ulp (the exact hull is still defined)
+				fx, fy = fx*fscale+foff, fy*fscale-foff
+			}
+			flat = append(flat, fx, fy)
 			for o := 2; o < stride; o++ {
 				flat = append(flat, float64(r.Intn(1000))) // extra ordinates identify the input coordinate
 			}
+		}
+		if fractional {
+			e.tally("fractional-ordinates")
 		}
 		e.tally(fmt.Sprintf("grid=%d", g))
 		if np > 50 {
